@@ -182,6 +182,7 @@ struct NameRule {
   bool inner_space;      // white space inside the name is expressible in this position
   bool second_plain;     // second character must not be white space (option names of the 'x' and ' ' styles)
   bool allow_empty;      // the empty name is expressible in this position
+  bool dots = false;     // '.' may be written although the finding about the text path separator is open (binary path route)
 };
 
 inline bool name_char_ok(const Fmt &f, int ch) {
@@ -210,7 +211,7 @@ inline std::string gen_name(Ctx &c, const NameRule &r, std::vector<std::string> 
           if (!name_char_ok(*r.f, ch)) ch = 0;
           // '.' is permitted by the Special name flag as well, but mpt_parse_config refuses it (it is the separator of the
           // text path it builds): open finding C09-name-with-path-separator. No extra draw, so older cases keep their meaning.
-          else if (ch == ':' && (i & 1) && !c.exclude("C09-name-with-path-separator")) ch = '.';
+          else if (ch == ':' && (i & 1) && (r.dots || !c.exclude("C09-name-with-path-separator"))) ch = '.';
         }
         break;
       case 3: if ((r.flags & Space) && r.inner_space && !first && !last && !(r.second_plain && i == 1)) ch = c.flip() ? ' ' : '\t'; break;
@@ -275,6 +276,7 @@ struct TreeGen {
   Flags fl;
   GenLimits lim;
   size_t nodes = 0, huge = 0;
+  bool dots = false;  // names may contain '.' regardless of the open finding (set by the driver that uses a binary path)
   std::vector<std::string> sect_pool, opt_pool;
   TreeGen(Ctx &c_, const Fmt &f_, Flags fl_, GenLimits l) : c(c_), f(f_), fl(fl_), lim(l) {}
 
@@ -290,6 +292,7 @@ struct TreeGen {
     // behind it is skipped, and the empty name cannot be written
     // (swallowed white space behind the first character: finding C09-option-name-second-character; no draw involved)
     NameRule r{fl.opt, &f, true, flat && c.exclude("C09-option-name-second-character"), !flat || f.family == '_'};
+    r.dots = dots;
     n.name = gen_name(c, r, opt_pool);
     n.value = value();
     ++nodes;
@@ -302,6 +305,7 @@ struct TreeGen {
       if (sect) {
         Node n;
         NameRule r{fl.sect, &f, true, false, true};
+        r.dots = dots;
         n.name = gen_name(c, r, sect_pool);
         n.section = true;
         ++nodes;
@@ -321,6 +325,7 @@ struct TreeGen {
       Node n;
       // 'x': a section name ends at the first white space; ' ': inner white space is kept, "[]" is the empty name
       NameRule r{fl.sect, &f, f.family == ' ', false, f.family == ' '};
+      r.dots = dots;
       n.name = gen_name(c, r, sect_pool);
       n.section = true;
       ++nodes;
